@@ -34,7 +34,7 @@ RULE = (
     "all (instance, timeline config, source kind, script tuple, interleaving): instance = every catalogue/extra instance except the five with "
     "per-build callback state; script menu = {(Sa,Sb,Ua),(Sa,Ua,Sb)} for plain results and {(Sa,K,Sb),(K,Sa,D),(Sa,K,D)} for connectables "
     "(S subscribe, U unsubscribe, K connect, D disconnect); 2 applications: all ordered script pairs x all 20 interleavings; 3 applications "
-    "(thorough): uniform + one mixed script triple x all 1680 interleavings; events at 200+14*slot; non-trivial = in the fresh run every "
+    "(thorough): every uniform script triple x all 1680 interleavings; events at 200+14*slot; non-trivial = in the fresh run every "
     "application had a subscriber that received >=1 notification and every main source was subscribed; distinct = the tuple above; "
     "outcome = the fresh run's observation"
 )
@@ -75,6 +75,8 @@ def covered_factories():
             names.add(part.split(":")[0])
     names |= {"dematerialize"} if "mat_demat" in names else set()
     allops = sorted(set(ops.__all__))
+    objs = {id(getattr(ops, n)) for n in names if hasattr(ops, n)}
+    names |= {n for n in allops if id(getattr(ops, n, None)) in objs}  # aliases (zip_with_list is zip_with_iterable)
     return [n for n in allops if n in names], [n for n in allops if n not in names]
 
 
@@ -118,7 +120,7 @@ def all_cases(tier, seed):
     if tier == "thorough":
         for e in usable():
             menu = sorted(CONN if "connectable" in e.flags else PLAIN)
-            triples = [(m, m, m) for m in menu] + [(menu[0], menu[1], menu[0])]
+            triples = [(m, m, m) for m in menu]
             for sp in triples:
                 for il in ilv(3):
                     yield (e.id, "c1", "cold", sp, il)
